@@ -174,7 +174,8 @@ PROPS = {
         "in place to expose aliasing; non-trivial = one operation",
         assumptions=["SE(2) angles in range (every pose the library produces is: C11)"],
         proved_level="partial",
-        unproved=["the object-identity model (Model/Heap.lean) is itself a hand model of numpy / Python object semantics (which operations allocate, which re-bind, which write in place): its frame theorems hold for all histories, its agreement with the interpreter is checked by running the model (driver command `heap`) and the real objects on the same aliased worlds and histories (tools/harness/heap.py: identity pattern, changed-or-not, flags exact), not proved",
+        unproved=["KNOWN FINDING (known_findings.json: se2-plus-pi-rewrap-on-copy): an SE(2) pose stored with angle exactly +pi (closed end of the float wrap) is re-wrapped to -pi by copy(), hence by a numerical-Jacobian query - the value-level purity theorems carry the hypothesis 'SE(2) angles in range [-pi, pi)' for exactly this reason",
+                  "the object-identity model (Model/Heap.lean) is itself a hand model of numpy / Python object semantics (which operations allocate, which re-bind, which write in place): its frame theorems hold for all histories, its agreement with the interpreter is checked by running the model (driver command `heap`) and the real objects on the same aliased worlds and histories (tools/harness/heap.py: identity pattern, changed-or-not, flags exact), not proved",
                   "queries other than the built-in calc_error, and custom edges' calc_error, are assumed to read only and to allocate their results (the dictionary / dense-array writes of the assembly go into arrays created by the same call)"],
         technique="Lean 4 proof: frame conditions of hand models (perturb/restore loop of _calc_jacobian, update loop) for all histories; numpy aliasing observed by a bitwise trace check",
         level_text="Proved on an explicit OBJECT-IDENTITY model (Model/Heap.lean: a growing heap of arrays, vertices and edges hold object ids, any aliasing allowed; Props/C15/Heap*.lean) for ALL histories of operations: (1) append-only - every operation except normalize() (the one in-place operation of the library) and the caller's own writes leaves every pre-existing object bit-identical, no call re-binds an edge attribute or changes an id / gradient index, fixed flags change only in optimize, to applyFixFirst; (2) queries leave the world unchanged except heap growth and are deterministic; the numerical-differentiation loop re-binds only the differentiated vertex, to a new object with the same content; (3) optimize: a fixed vertex keeps the same object, every free vertex gets its own NEW object holding old [+] dx-slice, pairwise distinct - two vertices (or a vertex and a measurement) that shared one object are not double-updated and the shared object keeps its entries; (4) copies are independent; (5) refinement: reading the world through its references gives exactly Model.numJacobian / Model.applyDx / Model.Run.iterStates. Also (value level): the numerical-differentiation loop returns the store exactly as it found it for every pose type (copy p = p discharged for the generated copy of R2/R3/SE3, and SE2 in range), for any error function and any number of vertices; "
@@ -245,20 +246,26 @@ PROPS = {
     ),
     "C09": dict(
         modules=["GraphSlam.Props.C09"],
-        theorem_files=["GraphSlam/Props/C09/*.lean", "GraphSlam/Props/C10/SE3Boxplus.lean"],
+        theorem_files=["GraphSlam/Props/C09/*.lean", "GraphSlam/Props/C10/SE3Boxplus.lean", "GraphSlam/Real/Atan2.lean"],
         scan_files=["GraphSlam/Real/*.lean", "GraphSlam/Core/*.lean"],
         corr=[("harness.entry", "layer_a", dict(only=["Pose", "Util"], quick=25, thorough=400))],
         search=("search.entry", "c09"),
         always_search=True,
         replay=("search.entry", "replay_generic"),
-        rule="translator validation of every generated pose definition (constructors, copy, to_matrix, inverse, (+) in its three dispatch branches, (-), "
-        "normalize) at Float vs the real methods on stratified inputs; non-trivial = definition has arguments",
+        rule="translator validation of every generated pose definition (constructors, copy, to_matrix, from_matrix, inverse, (+) in its three dispatch branches, (-), "
+        "normalize) at Float vs the real methods on stratified inputs (from_matrix: to_matrix() of poses with headings in all four quadrants, on and next to "
+        "0, +-pi/2, +-pi, products and inverses of such matrices, scaled rotation blocks, arbitrary arrays incl. signed zeros); non-trivial = definition has arguments",
         assumptions=["real arithmetic (no rounding)", "SE(3): unit-quaternion operands where displayed (the code's 1-2(y^2+z^2) rotation form is a rotation only on the unit sphere)",
-                     "SE(2): InRange only where a bare operand appears as one side of an equation"],
+                     "SE(2): InRange only where a bare operand appears as one side of an equation",
+                     "from_matrix: atan2 over the reals has no signed zero (IEEE atan2(-0.0, x<0) = -pi is +pi over the reals; both are wrapped to -pi by the constructor)"],
         technique="Lean 4 proof: ring / linear_combination (sympy-found, kernel-checked cofactors) on definitions regenerated from the source; wrap algebra for SE(2)",
         level_text="Group laws for all four pose types as theorems about the regenerated definitions: (+) = product of homogeneous matrices (code's to_matrix; rotation block proved orthogonal), "
         "a(-)b = b^-1(+)a, two-sided inverse and identity, associativity, pose(+)point = matrix action (and compatible with composition), "
-        "p[+]delta = p(+)expmap(delta) incl. the documented |dv|>1 fallback; SE(2) equalities exact including the wrapped angle.",
+        "p[+]delta = p(+)expmap(delta) incl. the documented |dv|>1 fallback; SE(2) equalities exact including the wrapped angle. "
+        "Matrix -> pose direction (Props/C09/FromMatrix.lean, on the regenerated PoseSE2.from_matrix with atan2 = Complex.arg, proved equal to the textbook piecewise arctan definition): "
+        "from_matrix(to_matrix(p)) = p exactly for -pi <= theta < pi (closed end included: atan2 returns +pi there and the constructor wrap restores -pi; iff), "
+        "from_matrix(M(p) M(q)) = p(+)q, from_matrix(M(q)^-1 M(p)) = p(-)q, from_matrix(M(p)^-1) = p.inverse for ALL real triples (np.dot form and Mathlib matrix product / inverse), "
+        "to_matrix(from_matrix(M)) = M for every rigid-motion matrix M.",
         level_note="Trusted: Lean kernel, Mathlib, py2lean translator (validated at Float every run). __iadd__ (base_pose.py) is translated per class and operand kind (iadd, iadd_boxplus).",
     ),
     "C11": dict(
@@ -351,11 +358,12 @@ PROPS = {
         level_note="Trusted: Lean kernel, the hand model (tied every run by 0.11M/0.63M exact comparisons incl. object identity), harness abstraction. Under `python -O` the assert is stripped and ill-typed edges are accepted (not modelled).",
     ),
     "C13": dict(
-        modules=["GraphSlam.Props.C13"],
-        theorem_files=["GraphSlam/Props/C13.lean"],
-        scan_files=G2O_SCAN,
+        modules=["GraphSlam.Props.C13", "GraphSlam.Props.Tie.G2OPy", "GraphSlam.Props.Tie.G2OPyExamples"],
+        theorem_files=["GraphSlam/Props/Tie/G2OPy.lean", "GraphSlam/Props/C13.lean"],
+        scan_files=G2O_SCAN + ["GraphSlam/Generated/G2OPy.lean", "GraphSlam/Core/G2OSpec.lean", "GraphSlam/Props/Tie/G2OInterp.lean", "GraphSlam/Props/Tie/G2OPyExamples.lean"],
         drivers=("gsdriver_g2o",),
         needs_generated=False,          # Layer B only: nothing of GraphSlam/Generated is imported
+        g2o_tie=True,
         corr=[("harness.entry", "g2o", dict(quick=(1500, 800), thorough=(10000, 5000)))],
         search=("search.entry", "c13"),
         always_search=True,             # re-confirms the known finding quat-sign:odometry:cross-terms on every run (0.3 s)
@@ -387,11 +395,12 @@ PROPS = {
         "a partially written file is left behind when an element is refused mid-way (mirrored by toG2OTrace and compared by the harness, not judged).",
     ),
     "C14": dict(
-        modules=["GraphSlam.Props.C14"],
-        theorem_files=["GraphSlam/Props/C14.lean", "GraphSlam/Props/C14/Lines.lean"],
-        scan_files=G2O_SCAN,
+        modules=["GraphSlam.Props.C14", "GraphSlam.Props.Tie.G2OPy", "GraphSlam.Props.Tie.G2OPyExamples"],
+        theorem_files=["GraphSlam/Props/Tie/G2OPy.lean", "GraphSlam/Props/C14.lean", "GraphSlam/Props/C14/Lines.lean"],
+        scan_files=G2O_SCAN + ["GraphSlam/Generated/G2OPy.lean", "GraphSlam/Core/G2OSpec.lean", "GraphSlam/Props/Tie/G2OInterp.lean", "GraphSlam/Props/Tie/G2OPyExamples.lean"],
         drivers=("gsdriver_g2o",),
         needs_generated=False,
+        g2o_tie=True,
         corr=[("harness.entry", "g2o", dict(quick=(300, 5000), thorough=(2000, 30000)))],
         search=("search.entry", "c14"),
         always_search=True,
